@@ -44,7 +44,7 @@ CHECKS = {
          "BufWriter::{write, write_vectored, flush, shutdown} and BufReader::{fill_buf, read, consume} keep "
          "delivered ++ buffered = previously buffered ++ bytes reported accepted (resp. handed out ++ unread = previously unread ++ "
          "newly read), byte for byte; an Err result leaves the caller's bytes unaccepted; the caller's buffer is returned and "
-         "untouched beyond the transferred bytes. copy_with_size (<=6/8 inner calls) delivers to the writer exactly the bytes "
+         "untouched beyond the transferred bytes. copy_with_size (<=6/7 inner calls) delivers to the writer exactly the bytes "
          "the reader produced, in order, retries Interrupted, and on an error has delivered a prefix; read_to_end / "
          "read_to_end_at leave in the caller's vector its previous content followed by everything read, for every pre-existing "
          "length / capacity / content.",
@@ -103,7 +103,7 @@ CHECKS = {
          "the real MIR, any buffer state / eof flag, <=3/4 framer calls and <=2/3 reads per call): poll_next never panics, keeps "
          "its reader and buffer on every return (also after a framer or read error), shows the codec exactly the payload bytes of "
          "the frame the framer reported, consumes exactly that frame, refills without touching unread bytes and ends the stream "
-         "only after two end-of-file reads in a row. Sink side (poll_ready, start_send, poll_flush from a not-yet-configured or "
+         "only on an end-of-file read that follows an earlier one. Sink side (poll_ready, start_send, poll_flush from a not-yet-configured or "
          "idle sink with arbitrary leftover buffer content): the encoder starts from an empty buffer, the framer encloses exactly "
          "the encoder's output, the writer receives exactly the enclosed frame once and in order (a prefix on error), and the sink "
          "ends idle, owning its writer and buffer.",
